@@ -667,34 +667,25 @@ theorem afterFor_brk {r : ForOut} (hf : r.flow = .brk) (hst : r.s.st = .awaiting
     afterFor r = r.s := by
   simp [afterFor, hf, hst]
 
-/-- A file `g` has just been opened (its first record is pending): the rest of this pass of the loop. -/
-theorem opened_spec (H : History) (o : Opts) (a : LoadArgs) (hfix : o.fix = .new)
+/-- The generator of file `g` is resumed (or started: its first record is pending): the rest of this
+pass of the loop, and the passes that follow. -/
+theorem continue_spec (H : History) (o : Opts) (a : LoadArgs) (hfix : o.fix = .new)
     (later : List File) (hloop : LoopSpec H o a later)
     (g : File) (post : History) (fuel : Nat) (s1 : LState) (lc : Time) (evs : List Event)
-    (p : Payload) (rest : List Line)
+    (need : Option (Time × Payload)) (rest : List Line) (cur adv : Time)
     (hH : H = later.reverse ++ g :: post) (hfuel : later.length + 1 ≤ fuel)
-    (hgen : s1.gen = .file (some (firstTs0 g, p)) rest a.clock (a.clock + o.la))
-    (hfresh : s1.fresh = true) (hstrict : s1.strict = true) (hts : tsLe s1.ts (firstTs0 g) = true)
-    (hst : s1.st = .initial ∨ s1.st = .switching) (hbad : ¬(p = .bad ∧ s1.st = .initial))
-    (hsorted : (tsOf ((.recd (firstTs0 g) p :: rest) ++ later.flatten)).Pairwise (· ≤ ·))
-    (hle : ∀ t ∈ tsOf ((.recd (firstTs0 g) p :: rest) ++ later.flatten), tsLe s1.ts t = true) :
-    Achieves H o a evs ((.recd (firstTs0 g) p :: rest) ++ later.flatten)
+    (hgen : s1.gen = .file need rest cur adv) (hadv : adv ≤ a.clock + o.la)
+    (htr : Track (firstTs0 g) s1)
+    (hnone : need = none → s1.st = .streaming ∧ s1.fresh = false)
+    (hsome : ∀ ts p, need = some (ts, p) →
+      FileState s1 ∧ (s1.fresh = true → ts = firstTs0 g) ∧ ¬(p = .bad ∧ s1.st = .initial))
+    (hsorted : (tsOf (genLines s1.gen ++ later.flatten)).Pairwise (· ≤ ·))
+    (hle : ∀ t ∈ tsOf (genLines s1.gen ++ later.flatten), tsLe s1.ts t = true) :
+    Achieves H o a evs (genLines s1.gen ++ later.flatten)
       (continueWith (loadLoop H o a fuel) (runGen o a s1 lc evs)) := by
-  have hfs : FileState s1 := by
-    rcases hst with h | h
-    · exact Or.inl h
-    · exact Or.inr (Or.inl h)
-  have hgl : genLines s1.gen = .recd (firstTs0 g) p :: rest := by rw [hgen]; rfl
   obtain ⟨c, r, hsplit, h1, h2, h3, h4, h5, h6, h7⟩ :=
-    runGen_spec o a hfix (firstTs0 g) later.flatten s1 lc evs _ rest _ _ hgen (Nat.le_refl _)
-      (Or.inl ⟨hfresh, hstrict, hts⟩) (by rw [hgl]; exact hsorted) (by rw [hgl]; exact hle)
-      (by intro h; simp at h)
-      (by
-        intro ts p' h
-        simp only [Option.some.injEq, Prod.mk.injEq] at h
-        obtain ⟨rfl, rfl⟩ := h
-        exact ⟨hfs, fun _ => rfl, hbad⟩)
-  rw [hgl] at hsplit
+    runGen_spec o a hfix (firstTs0 g) later.flatten s1 lc evs need rest cur adv hgen hadv
+      htr hsorted hle hnone hsome
   cases h7 with
   | finished hr hflow hstr =>
     subst hr
@@ -754,6 +745,33 @@ theorem opened_spec (H : History) (o : Opts) (a : LoadArgs) (hfix : o.fix = .new
         exact (List.pairwise_append.mp hsorted).2.1
     · intro hl hu
       exact (hlim ⟨hl, hu⟩).elim
+
+/-- A file `g` has just been opened (its first record is pending). -/
+theorem opened_spec (H : History) (o : Opts) (a : LoadArgs) (hfix : o.fix = .new)
+    (later : List File) (hloop : LoopSpec H o a later)
+    (g : File) (post : History) (fuel : Nat) (s1 : LState) (lc : Time) (evs : List Event)
+    (p : Payload) (rest : List Line)
+    (hH : H = later.reverse ++ g :: post) (hfuel : later.length + 1 ≤ fuel)
+    (hgen : s1.gen = .file (some (firstTs0 g, p)) rest a.clock (a.clock + o.la))
+    (hfresh : s1.fresh = true) (hstrict : s1.strict = true) (hts : tsLe s1.ts (firstTs0 g) = true)
+    (hst : s1.st = .initial ∨ s1.st = .switching) (hbad : ¬(p = .bad ∧ s1.st = .initial))
+    (hsorted : (tsOf ((.recd (firstTs0 g) p :: rest) ++ later.flatten)).Pairwise (· ≤ ·))
+    (hle : ∀ t ∈ tsOf ((.recd (firstTs0 g) p :: rest) ++ later.flatten), tsLe s1.ts t = true) :
+    Achieves H o a evs ((.recd (firstTs0 g) p :: rest) ++ later.flatten)
+      (continueWith (loadLoop H o a fuel) (runGen o a s1 lc evs)) := by
+  have hfs : FileState s1 := by
+    rcases hst with h | h
+    · exact Or.inl h
+    · exact Or.inr (Or.inl h)
+  have hgl : genLines s1.gen = .recd (firstTs0 g) p :: rest := by rw [hgen]; rfl
+  rw [← hgl]
+  refine continue_spec H o a hfix later hloop g post fuel s1 lc evs _ rest _ _ hH hfuel hgen (Nat.le_refl _)
+    (Or.inl ⟨hfresh, hstrict, hts⟩) (by intro h; simp at h) ?_ (by rw [hgl]; exact hsorted)
+    (by rw [hgl]; exact hle)
+  intro ts p' h
+  simp only [Option.some.injEq, Prod.mk.injEq] at h
+  obtain ⟨rfl, rfl⟩ := h
+  exact ⟨hfs, fun _ => rfl, hbad⟩
 
 theorem Achieves.comments {H : History} {o : Opts} {a : LoadArgs} {evs : List Event}
     {todo : List Line} {out : LoadOut} (cm : List Line) (hcm : ∀ l ∈ cm, l = .comment)
@@ -883,5 +901,146 @@ theorem loop_spec (H : History) (o : Opts) (a : LoadArgs) (hfix : o.fix = .new) 
       p rest hH' (by rw [List.length_cons] at hfuel; omega) rfl rfl rfl (by rw [hs1ts]; exact hG0)
       (Or.inr hs1st) (by rw [hs1st]; simp)
       (by rw [hts_eq]; exact hsorted) (by rw [hts_eq, hs1ts]; exact hle)
+
+/-! ### one `load` call -/
+
+/-- the lines a replay begun at historical time `c` goes through: the start file and all newer ones -/
+def spanLines (H : History) (c : Time) : List Line :=
+  match startSplit c H with
+  | none => []
+  | some (pre, f, _) => f ++ pre.reverse.flatten
+
+theorem stAfter_exhausted : stAfter .exhausted = .exhausted := by simp [stAfter]
+
+theorem finish_exhausted (a : LoadArgs) (cur : Time) (s : LState) (evs : List Event)
+    (hst : s.st = .exhausted) :
+    ∃ fl s', finish a cur s evs = (fl, s', evs) ∧ (fl = .brk ∨ ∃ t, fl = .ret t) ∧
+      (s'.st = .exhausted ∨ s'.st = .complete) ∧ s'.gen = s.gen := by
+  unfold finish
+  cases hd : drain a.upcoming cur s.future s.values s.until_ with
+  | mk b r =>
+    obtain ⟨fut, v, u⟩ := r
+    cases b with
+    | true => exact ⟨_, _, rfl, Or.inr ⟨_, rfl⟩, Or.inl hst, rfl⟩
+    | false =>
+      simp only [hst, ↓reduceIte]
+      by_cases hf : fut.isEmpty = true
+      · exact ⟨_, _, rfl, Or.inl rfl, Or.inr (by simp [hf]), by simp [hf]⟩
+      · exact ⟨_, _, rfl, Or.inl rfl, Or.inl (by simp [hf, hst]), by simp [hf]⟩
+
+/-- once the history is exhausted a `load` delivers nothing and stays EXHAUSTED or becomes COMPLETE -/
+theorem load_exhausted (H : History) (o : Opts) (a : LoadArgs) (s : LState)
+    (hst : s.st = .exhausted) (hgen : s.gen = .noop) :
+    ∃ t s', load H o a s = .done t s' [] ∧ (s'.st = .exhausted ∨ s'.st = .complete) ∧ s'.gen = .noop := by
+  have hseen : (seen o.fix a.clock s).st = .exhausted := by simp [seen, hst, stAfter_exhausted]
+  obtain ⟨fl, s', hfin, hfl, hst', hg'⟩ := finish_exhausted a a.clock (seen o.fix a.clock s) [] hseen
+  have hg'' : s'.gen = .noop := by rw [hg']; exact hgen
+  have hrun : runGen o a s a.clock [] = ⟨fl, s', a.clock, []⟩ := by
+    simp [runGen, hgen, procReal, hst, hfin]
+  have hload : load H o a s = continueWith (loadLoop H o a (openBudget H)) (runGen o a s a.clock []) := by
+    simp [load, hst]
+  rw [hload, hrun]
+  rcases hfl with rfl | ⟨t, rfl⟩
+  · refine ⟨some a.clock, s', ?_, hst', hg''⟩
+    rcases hst' with h | h <;> simp [continueWith, afterFor, h]
+  · exact ⟨t, s', by simp [continueWith], hst', hg''⟩
+
+theorem load_complete (H : History) (o : Opts) (a : LoadArgs) (s : LState) (hst : s.st = .complete) :
+    load H o a s = .done (some a.clock) s [] := by
+  simp [load, hst]
+
+theorem openBudget_ge (pre : History) (f : File) (post : History) :
+    pre.reverse.length + 1 ≤ openBudget (pre ++ f :: post) := by
+  simp [openBudget]; omega
+
+/-- **A `load` call from any position reached by a replay.** -/
+theorem load_spec (H : History) (o : Opts) (a : LoadArgs) (hfix : o.fix = .new) (hwf : WF H)
+    (s : LState) (bound : Time) (todo : List Line) (hpos : Pos H bound s todo)
+    (hb : bound ≤ a.clock + o.la) :
+    Achieves H o a [] todo (load H o a s) := by
+  cases hpos with
+  | exhausted htodo hst hgen =>
+    subst htodo
+    rcases hst with hst | hst
+    · obtain ⟨t, s', hl, hst', hg'⟩ := load_exhausted H o a s hst hgen
+      exact ⟨[], [], t, s', rfl, by rw [hl]; rfl, by simp [tsOf], .exhausted rfl hst' hg', fun _ _ => Or.inl rfl⟩
+    · exact ⟨[], [], _, s, rfl, by rw [load_complete H o a s hst]; rfl, by simp [tsOf],
+        .exhausted rfl (Or.inr hst) hgen, fun _ _ => Or.inl rfl⟩
+  | inFile later f post need rest cur adv hH hgen hadv htr htodo hsorted hle hnone hsome =>
+    have hst : s.st = .streaming ∨ s.st = .awaiting := by
+      cases need with
+      | none => exact Or.inl (hnone rfl).1
+      | some tp => exact Or.inr (hsome tp.1 tp.2 rfl).1
+    have hload : load H o a s = continueWith (loadLoop H o a (openBudget H)) (runGen o a s a.clock []) := by
+      rcases hst with h | h <;> simp [load, h]
+    rw [hload, htodo]
+    rw [htodo] at hsorted hle
+    refine continue_spec H o a hfix later (loop_spec H o a hfix hwf later) f post _ s a.clock [] need rest
+      cur adv hH ?_ hgen (Nat.le_trans hadv hb) htr hnone ?_ hsorted hle
+    · rw [hH]
+      have := openBudget_ge later.reverse f post
+      simpa using this
+    · intro ts p h
+      obtain ⟨h1, h2⟩ := hsome ts p h
+      exact ⟨Or.inr (Or.inr (Or.inl h1)), h2, by rw [h1]; simp⟩
+
+theorem tsOf_suffix_sorted {a b : List Line} (h : (tsOf (a ++ b)).Pairwise (· ≤ ·)) :
+    (tsOf b).Pairwise (· ≤ ·) := by
+  rw [tsOf_append] at h
+  exact (List.pairwise_append.mp h).2.1
+
+/-- **The first `load` call**: the replay starts at the start file. -/
+theorem start_spec (H : History) (o : Opts) (a : LoadArgs) (hfix : o.fix = .new) (hwf : WF H) :
+    Achieves H o a [] (spanLines H a.clock) (load H o a {}) := by
+  have hload : load H o a {} = loadLoop H o a (openBudget H) {} a.clock [] := by simp [load]
+  rw [hload]
+  unfold spanLines
+  have hscan := scan_before a.clock H none hwf.first_ok
+  cases hs : startSplit a.clock H with
+  | none =>
+    rw [hs] at hscan
+    have : loadLoop H o a (openBudget H) {} a.clock [] = .done (some a.clock) (exhaustedState {}) [] := by
+      simp only [openBudget]
+      have hb : ((({} : LState).st) != St.initial) = false := rfl
+      simp [loadLoop, hb, hscan]
+    rw [this]
+    exact ⟨[], [], _, _, rfl, rfl, by simp [tsOf], .exhausted rfl (Or.inl rfl) rfl, fun _ _ => Or.inl rfl⟩
+  | some x =>
+    obtain ⟨pre, f, post⟩ := x
+    rw [hs] at hscan
+    simp only at hscan ⊢
+    obtain ⟨hH, _, _⟩ := startSplit_spec hs
+    have hf : FirstOk f := hwf.first_ok f (by rw [hH]; simp)
+    obtain ⟨p, rest, hfr, hp⟩ := hf.ok
+    rw [openedOf_eq hfr] at hscan
+    have hstep : loadLoop H o a (openBudget H) {} a.clock [] =
+        continueWith (loadLoop H o a (3 * H.length + 2))
+          (runGen o a (openedState o a ⟨firstTs0 f, p, rest⟩ {}) a.clock []) := by
+      have hb : ((({} : LState).st) != St.initial) = false := rfl
+      simp [openBudget, loadLoop, hb, hscan]
+    rw [hstep]
+    obtain ⟨cm, hfsplit, hcm⟩ := firstRecord_ok hfr
+    have hts_eq : ∀ X, tsOf ((.recd (firstTs0 f) p :: rest) ++ X) = tsOf (f ++ X) := by
+      intro X
+      rw [tsOf_append, tsOf_append, tsOf_file hfr, tsOf_cons_recd]
+    have hflat : f ++ pre.reverse.flatten = cm ++ ((.recd (firstTs0 f) p :: rest) ++ pre.reverse.flatten) := by
+      conv => lhs; rw [hfsplit]
+      simp
+    rw [hflat]
+    apply Achieves.comments cm hcm
+    have hH' : H = pre.reverse.reverse ++ f :: post := by rw [hH]; simp
+    have hmono : (tsOf (f ++ pre.reverse.flatten)).Pairwise (· ≤ ·) := by
+      have := hwf.mono
+      unfold chron at this
+      rw [hH] at this
+      simp only [List.reverse_append, List.reverse_cons, List.append_assoc, List.singleton_append,
+        List.flatten_append, List.flatten_cons] at this
+      exact tsOf_suffix_sorted this
+    refine opened_spec H o a hfix pre.reverse (loop_spec H o a hfix hwf _) f post _
+      (openedState o a ⟨firstTs0 f, p, rest⟩ {}) a.clock [] p rest hH' ?_ rfl rfl rfl rfl (Or.inl rfl)
+      (by intro h; exact hp h.1) (by rw [hts_eq]; exact hmono) (by intro t _; rfl)
+    rw [hH]
+    simp only [List.length_reverse, List.length_append, List.length_cons]
+    omega
 
 end Cpppo.History
